@@ -169,3 +169,54 @@ def wrapper_contracts():
         c[k] = dict(CONTRACTS[k], assumed=True, assigns=['con[*]'])
     c.update(WRAPPERS)
     return c
+
+
+# mjc_SphereCylinder (g1 = sphere, g2 = cylinder of radius R and half height H along its frame's z axis): which feature of the cylinder is nearest to
+# the sphere centre (cap, side or rim; deep inside: the nearer of cap and side) and the gap the contact reports.  X = axial coordinate of the sphere
+# centre, P2 = squared radial distance from the axis; the raw sphere / plane colliders are used through their proved contracts.
+SC_DEFS = {
+    'V': 'lambda k: d.geom_xpos[3*g1 + k] - d.geom_xpos[3*g2 + k]',
+    'AXS': 'lambda k: d.geom_xmat[9*g2 + 2 + 3*k]',
+    'X': 'AXS(0)*V(0) + AXS(1)*V(1) + AXS(2)*V(2)',
+    'PPR': 'lambda k: V(k) - X*AXS(k)',
+    'P2': 'PPR(0)*PPR(0) + PPR(1)*PPR(1) + PPR(2)*PPR(2)',
+    'absx': '(X if X >= 0 else -X)',
+    'RC': 'm.geom_size[3*g2]', 'HC': 'm.geom_size[3*g2 + 1]', 'RS': 'm.geom_size[3*g1]',
+    'RIM': 'lambda s, k: (HC if X > 0 else -HC)*AXS(k) + PPR(k)*(RC/s)',     # rim point nearest to the sphere centre, relative to the cylinder centre
+    'GAP2': 'lambda s: (V(0) - RIM(s, 0))*(V(0) - RIM(s, 0)) + (V(1) - RIM(s, 1))*(V(1) - RIM(s, 1)) + (V(2) - RIM(s, 2))*(V(2) - RIM(s, 2))',
+    'AXIAL': 'absx < HC',            # between the cap planes
+    'RADIAL': 'P2 < RC*RC',          # inside the infinite cylinder
+}
+SPHERE_CYLINDER = {
+    'params': {'m': {'n': 1, 'ptrfields': {'geom_size': {'len': '3 * m.ngeom'}}},
+               'd': {'n': 1, 'ptrfields': {'geom_xpos': {'len': '3 * m.ngeom'}, 'geom_xmat': {'len': '9 * m.ngeom'}}}, 'con': {'n': 1}},
+    'defs': SC_DEFS,
+    'requires': {'geoms': '0 <= g1 and g1 < m.ngeom and 0 <= g2 and g2 < m.ngeom and m.ngeom < 2**20',
+                 'unit_axis': 'AXS(0)*AXS(0) + AXS(1)*AXS(1) + AXS(2)*AXS(2) == 1',
+                 'sizes': 'RC >= 0 and HC >= 0 and RS >= 0', 'reach': 'margin + RS >= 0'},
+    'ensures': {
+        'zero_or_one': 'result == 0 or result == 1',
+        'beside_the_round_side': 'implies(AXIAL and not RADIAL, ((result == 1) == (P2 <= (margin + RS + RC)*(margin + RS + RC))) and '
+                                 'implies(result == 1, (con.dist + RS + RC)*(con.dist + RS + RC) == P2 and con.dist + RS + RC >= 0))',
+        'over_a_cap': 'implies(not AXIAL and RADIAL, ((result == 1) == (absx - HC - RS <= margin)) and implies(result == 1, con.dist == absx - HC - RS))',
+        # s stands for the radial distance sqrt(P2)
+        # beyond a cap plane and outside the radius: the nearest point of the cylinder is on the rim, RIM(s, k) = end of the axis on the sphere's side
+        # plus the radial direction scaled to the radius (s = radial distance sqrt(P2)); the contact is the point contact with that rim point
+        'nearest_to_the_rim': 'implies(not AXIAL and not RADIAL and P2 > 0, '
+                              '((result == 1) == (GAP2(sqrt_of(P2)) <= (margin + RS)*(margin + RS))) and '
+                              'implies(result == 1, (con.dist + RS)*(con.dist + RS) == GAP2(sqrt_of(P2)) and con.dist + RS >= 0))',
+        'centre_inside_the_cylinder_uses_the_nearer_of_cap_and_side': 'implies(AXIAL and RADIAL, '
+                              '(((result == 1) == (absx - HC - RS <= margin)) and implies(result == 1, con.dist == absx - HC - RS)) if (HC - absx < RC - sqrt_of(P2)) else '
+                              '(((result == 1) == (P2 <= (margin + RS + RC)*(margin + RS + RC))) and implies(result == 1, (con.dist + RS + RC)*(con.dist + RS + RC) == P2 and con.dist + RS + RC >= 0)))',
+    },
+    'no_error': True,
+}
+
+
+def sphere_cylinder_contracts():
+    c = dict(CONTRACTS)
+    c['__no_merge__'] = True
+    for k in ('mjraw_PlaneSphere', 'mjraw_SphereSphere'):
+        c[k] = dict(CONTRACTS[k], assumed=True, assigns=['con[*]'])
+    c['mjc_SphereCylinder'] = SPHERE_CYLINDER
+    return c
